@@ -245,7 +245,44 @@ type connResult struct {
 	err    error
 }
 
-func dialOnce(addr string, id tls.ClientHelloID) connResult {
+// newClient builds the UConn of one connection (a stock parrot, or a custom spec applied to HelloCustom).
+type newClient func(conn net.Conn, cfg *tls.Config) (*tls.UConn, error)
+
+func stockClient(id tls.ClientHelloID) newClient {
+	return func(conn net.Conn, cfg *tls.Config) (*tls.UConn, error) { return tls.UClient(conn, cfg, id), nil }
+}
+
+// customClient: the base parrot's spec, built afresh for every connection, with the candidate lists of its GREASE ECH
+// extension replaced by the given ones.
+func customClient(base tls.ClientHelloID, t *template) newClient {
+	return func(conn net.Conn, cfg *tls.Config) (*tls.UConn, error) {
+		spec, err := tls.UTLSIdToSpec(base)
+		if err != nil {
+			return nil, err
+		}
+		found := false
+		for i, e := range spec.Extensions {
+			if _, ok := e.(*tls.GREASEEncryptedClientHelloExtension); ok {
+				spec.Extensions[i] = &tls.GREASEEncryptedClientHelloExtension{
+					CandidateCipherSuites: append([]tls.HPKESymmetricCipherSuite(nil), t.suites...),
+					CandidateConfigIds:    append([]uint8(nil), t.ids...),
+					CandidatePayloadLens:  append([]uint16(nil), t.lens...),
+				}
+				found = true
+			}
+		}
+		if !found {
+			return nil, fmt.Errorf("base spec has no GREASE ECH extension")
+		}
+		uc := tls.UClient(conn, cfg, tls.HelloCustom)
+		if err := uc.ApplyPreset(&spec); err != nil {
+			return nil, err
+		}
+		return uc, nil
+	}
+}
+
+func dialOnce(addr string, mk newClient) connResult {
 	conn, err := net.DialTimeout("tcp", addr, 5*time.Second)
 	if err != nil {
 		return connResult{err: err}
@@ -253,7 +290,10 @@ func dialOnce(addr string, id tls.ClientHelloID) connResult {
 	defer conn.Close()
 	conn.SetDeadline(time.Now().Add(10 * time.Second))
 	rc := &recConn{Conn: conn}
-	uc := tls.UClient(rc, &tls.Config{ServerName: "c16.test", InsecureSkipVerify: true}, id)
+	uc, err := mk(rc, &tls.Config{ServerName: "c16.test", InsecureSkipVerify: true})
+	if err != nil {
+		return connResult{err: err}
+	}
 	err = uc.Handshake()
 	if err == nil {
 		uc.Close()
@@ -294,6 +334,7 @@ func runC16(c *vh.Ctx) {
 	go serve(hrrLn, &tls.Config{Certificates: []tls.Certificate{cert}, CurvePreferences: []tls.CurveID{tls.CurveP384}}, &wg)
 
 	perMode := c.N // connections per parrot and server kind (quick 150 -> 300 per parrot)
+	addrs := []string{plainLn.Addr().String(), hrrLn.Addr().String()}
 	var parrots []string
 	for _, cand := range candidates {
 		t, groups, shares, ok := greaseTemplate(cand.id)
@@ -313,93 +354,171 @@ func runC16(c *vh.Ctx) {
 			continue
 		}
 		parrots = append(parrots, cand.name)
-		cs, is, ls := t.coq()
-		seenEnc := map[string]int{}
-		seenPl := map[string]int{}
-		seenAll := map[string]int{}
-		for mode, addr := range []string{plainLn.Addr().String(), hrrLn.Addr().String()} {
-			modeName := []string{"plain", "hrr"}[mode]
-			results := make([]connResult, perMode)
-			var cw sync.WaitGroup
-			sem := make(chan bool, 8)
-			for i := range results {
-				cw.Add(1)
-				sem <- true
-				go func(i int) {
-					defer cw.Done()
-					results[i] = dialOnce(addr, cand.id)
-					<-sem
-				}(i)
-			}
-			cw.Wait()
-			for i, r := range results {
-				key := cand.name + "/" + modeName
-				in := map[string]any{"parrot": cand.name, "server": modeName, "connection": i}
-				if r.err != nil {
-					c.Fail("handshake/"+key, "handshake with a GREASE ECH parrot failed", in, r.err.Error(), "nil")
-				}
-				want := 1 + mode
-				if len(r.hellos) != want {
-					c.Fail("hello-count/"+key, "unexpected number of ClientHello messages on the wire", in, len(r.hellos), want)
-					if len(r.hellos) == 0 {
-						continue
-					}
-				}
-				var exts [][]byte
-				bad := false
-				for hi, h := range r.hellos {
-					es, ok := echExtensions(h)
-					if !ok || len(es) != 1 {
-						c.Fail(fmt.Sprintf("ech-ext-count/%s/hello%d", key, hi+1), "ClientHello does not carry exactly one encrypted_client_hello extension", in, len(es), 1)
-						bad = true
-						break
-					}
-					exts = append(exts, es[0])
-				}
-				if bad {
-					continue
-				}
-				in["ech_extension_hello1"] = vh.Hex(exts[0])
-				p, why := parseOuter(exts[0])
-				if p == nil {
-					c.Fail("grease-ech-malformed/"+key, "GREASE ECH extension is not a well-formed outer ECHClientHello: "+why, in, vh.Hex(exts[0]), "type 0, suite, config id, enc<..>, payload<..>")
-				} else {
-					if why := t.check(p); why != "" {
-						c.Fail("grease-ech-fields/"+key, "GREASE ECH extension: "+why, in, vh.Hex(exts[0]), "candidate suite, 32-byte enc, candidate length + 16")
-					}
-					c.Count(fmt.Sprintf("dist:%s:kdf=%d,aead=%d,payload=%d", cand.name, p.kdf, p.aead, len(p.pl)))
-					seenEnc[string(p.enc)]++
-					seenPl[string(p.pl)]++
-					seenAll[string(exts[0][9:])]++ // config id || enc || payload
-					if seenEnc[string(p.enc)] > 1 || seenPl[string(p.pl)] > 1 {
-						c.Fail("grease-ech-repeat/"+cand.name, "encapsulated key or payload of a GREASE ECH extension repeated across connections", in, vh.Hex(exts[0]), "fresh per connection")
-					}
-				}
-				ext2 := "None"
-				if len(exts) > 1 {
-					in["ech_extension_hello2"] = vh.Hex(exts[1])
-					ext2 = "(Some None)" // byte-identical to the first
-					if !bytes.Equal(exts[0], exts[1]) {
-						ext2 = "(Some (Some " + vh.Bytes(exts[1]) + "))"
-						c.Fail("grease-ech-hrr-changed/"+cand.name, "the GREASE ECH extension in the second ClientHello differs from the first", in, vh.Hex(exts[1]), vh.Hex(exts[0]))
-					}
-				}
-				if i%30 == 0 {
-					c.OracleCase("oracle", fmt.Sprintf("(COracle %s %s %s %s)", cs, ls, vh.Bytes(exts[0]), ext2), "grease-ech-wf/"+key,
-						"the proven oracle predicate (well-formed outer ECH, candidate suite, 32-byte enc, candidate length + 16, identical after HRR) rejects the bytes on the wire", in, true)
-				}
-				// the model is compared on every 15th connection (Coq elaborates 250-byte list literals slowly)
-				if i%15 == 0 {
-					c.Case("model", fmt.Sprintf("(CGrease %s %s %s %s %s)", cs, is, ls, vh.Bytes(exts[0]), ext2),
-						fmt.Sprintf("%s/%d", key, i), mode == 1, map[string]any{"parrot": cand.name, "server": modeName, "ech_extension": vh.Hex(exts[0])})
-				}
-			}
-		}
-		c.Extra["distinct_id_enc_payload:"+cand.name] = len(seenAll)
+		runVariant(c, cand.name, stockClient(cand.id), t, addrs, perMode, perMode, 50, 25)
 	}
+	// custom specs: a parrot's spec whose GREASE ECH candidate lists are replaced. The stock lists share one KDF, so
+	// "(kdf,aead) is one of the candidate PAIRS" and "payload = a candidate + tag" are only really tested here.
+	var customs []string
+	for _, v := range customVariants(c) {
+		customs = append(customs, v.name)
+		runVariant(c, v.name, customClient(v.base, v.t), v.t, addrs, perMode/5, perMode/15, 10, 3)
+	}
+	c.Extra["custom_variants"] = customs
 	sort.Strings(parrots)
 	c.Extra["grease_ech_parrots"] = parrots
 	if len(parrots) < 5 {
 		c.Fail("parrot-discovery", "fewer GREASE ECH parrots found than expected", nil, parrots, "Chrome_120, Chrome_120_PQ, Chrome_131, Chrome_133, Firefox_120")
 	}
+}
+
+type variant struct {
+	name string
+	base tls.ClientHelloID
+	t    *template
+}
+
+func pairs(ps ...uint16) []tls.HPKESymmetricCipherSuite {
+	var out []tls.HPKESymmetricCipherSuite
+	for i := 0; i+1 < len(ps); i += 2 {
+		out = append(out, tls.HPKESymmetricCipherSuite{KdfId: ps[i], AeadId: ps[i+1]})
+	}
+	return out
+}
+
+// customVariants: fixed shapes (distinct KDFs and AEADs, single element, empty = default pair, config-id list) and
+// seeded random lists. Payload lengths are kept small so the Coq cases stay cheap.
+func customVariants(c *vh.Ctx) []variant {
+	vs := []variant{
+		{"custom/diag3", tls.HelloChrome_133, &template{suites: pairs(1, 1, 2, 2, 3, 3), lens: []uint16{17, 40, 99}}},
+		{"custom/diag3-firefox", tls.HelloFirefox_120, &template{suites: pairs(1, 3, 2, 1, 3, 2), lens: []uint16{64, 65}}},
+		{"custom/single", tls.HelloChrome_120, &template{suites: pairs(2, 3), lens: []uint16{48}}},
+		{"custom/defaults", tls.HelloChrome_131, &template{}},
+		{"custom/ids", tls.HelloChrome_133, &template{suites: pairs(1, 2, 3, 1), ids: []uint8{7, 200, 13}, lens: []uint16{1, 250}}},
+	}
+	for k := 0; k < 3; k++ {
+		// 2..4 distinct pairs from {1,2,3}x{1,2,3} that are NOT closed under mixing, 1..4 lengths in 1..250
+		var t *template
+		for {
+			perm := c.Rng.Perm(9)
+			n := 2 + c.Rng.Intn(3)
+			var ps []uint16
+			have := map[[2]uint16]bool{}
+			for _, x := range perm[:n] {
+				kdf, aead := uint16(x/3+1), uint16(x%3+1)
+				ps = append(ps, kdf, aead)
+				have[[2]uint16{kdf, aead}] = true
+			}
+			closed := true
+			for a := range have {
+				for b := range have {
+					closed = closed && have[[2]uint16{a[0], b[1]}]
+				}
+			}
+			if closed {
+				continue
+			}
+			var ls []uint16
+			for j, m := 0, 1+c.Rng.Intn(4); j < m; j++ {
+				ls = append(ls, uint16(1+c.Rng.Intn(250)))
+			}
+			t = &template{suites: pairs(ps...), lens: ls}
+			break
+		}
+		base := []tls.ClientHelloID{tls.HelloChrome_133, tls.HelloFirefox_120, tls.HelloChrome_120_PQ}[k]
+		vs = append(vs, variant{fmt.Sprintf("custom/random%d", k+1), base, t})
+	}
+	return vs
+}
+
+// runVariant: perMode connections to the plain server and perHRR to the HelloRetryRequest server with clients built by
+// mk, whose GREASE ECH extension has the candidate lists t. Every connection goes through the Go-side oracle; every
+// oracleEvery-th / modelEvery-th one also to Coq (Coq elaborates long byte-list literals slowly).
+func runVariant(c *vh.Ctx, name string, mk newClient, t *template, addrs []string, perMode, perHRR, oracleEvery, modelEvery int) {
+	cs, is, ls := t.coq()
+	seenEnc := map[string]int{}
+	seenPl := map[string]int{}
+	seenAll := map[string]int{}
+	for mode, addr := range addrs {
+		modeName := []string{"plain", "hrr"}[mode]
+		n := perMode
+		if mode == 1 {
+			n = perHRR
+		}
+		results := make([]connResult, n)
+		var cw sync.WaitGroup
+		sem := make(chan bool, 8)
+		for i := range results {
+			cw.Add(1)
+			sem <- true
+			go func(i int) {
+				defer cw.Done()
+				results[i] = dialOnce(addr, mk)
+				<-sem
+			}(i)
+		}
+		cw.Wait()
+		for i, r := range results {
+			key := name + "/" + modeName
+			in := map[string]any{"client": name, "server": modeName, "connection": i,
+				"candidate_suites(kdf,aead)": cs, "candidate_config_ids": is, "candidate_payload_lens": ls}
+			if r.err != nil {
+				c.Fail("handshake/"+key, "handshake with a GREASE ECH client failed", in, r.err.Error(), "nil")
+			}
+			want := 1 + mode
+			if len(r.hellos) != want {
+				c.Fail("hello-count/"+key, "unexpected number of ClientHello messages on the wire", in, len(r.hellos), want)
+				if len(r.hellos) == 0 {
+					continue
+				}
+			}
+			var exts [][]byte
+			bad := false
+			for hi, h := range r.hellos {
+				es, ok := echExtensions(h)
+				if !ok || len(es) != 1 {
+					c.Fail(fmt.Sprintf("ech-ext-count/%s/hello%d", key, hi+1), "ClientHello does not carry exactly one encrypted_client_hello extension", in, len(es), 1)
+					bad = true
+					break
+				}
+				exts = append(exts, es[0])
+			}
+			if bad {
+				continue
+			}
+			in["ech_extension_hello1"] = vh.Hex(exts[0])
+			p, why := parseOuter(exts[0])
+			if p == nil {
+				c.Fail("grease-ech-malformed/"+key, "GREASE ECH extension is not a well-formed outer ECHClientHello: "+why, in, vh.Hex(exts[0]), "type 0, suite, config id, enc<..>, payload<..>")
+			} else {
+				if why := t.check(p); why != "" {
+					c.Fail("grease-ech-fields/"+key, "GREASE ECH extension: "+why, in, vh.Hex(exts[0]), "a candidate (kdf,aead) PAIR, 32-byte enc, candidate length + 16")
+				}
+				c.Count(fmt.Sprintf("dist:%s:kdf=%d,aead=%d,payload=%d", name, p.kdf, p.aead, len(p.pl)))
+				seenEnc[string(p.enc)]++
+				seenPl[string(p.pl)]++
+				seenAll[string(exts[0][9:])]++ // config id || enc || payload
+				if seenEnc[string(p.enc)] > 1 || seenPl[string(p.pl)] > 1 {
+					c.Fail("grease-ech-repeat/"+name, "encapsulated key or payload of a GREASE ECH extension repeated across connections", in, vh.Hex(exts[0]), "fresh per connection")
+				}
+			}
+			ext2 := "None"
+			if len(exts) > 1 {
+				in["ech_extension_hello2"] = vh.Hex(exts[1])
+				ext2 = "(Some None)" // byte-identical to the first
+				if !bytes.Equal(exts[0], exts[1]) {
+					ext2 = "(Some (Some " + vh.Bytes(exts[1]) + "))"
+					c.Fail("grease-ech-hrr-changed/"+name, "the GREASE ECH extension in the second ClientHello differs from the first", in, vh.Hex(exts[1]), vh.Hex(exts[0]))
+				}
+			}
+			if i%oracleEvery == 0 {
+				c.OracleCase("oracle", fmt.Sprintf("(COracle %s %s %s %s)", cs, ls, vh.Bytes(exts[0]), ext2), "grease-ech-wf/"+key,
+					"the proven oracle predicate (well-formed outer ECH, candidate pair, 32-byte enc, candidate length + 16, identical after HRR) rejects the bytes on the wire", in, true)
+			}
+			if i%modelEvery == 0 {
+				c.Case("model", fmt.Sprintf("(CGrease %s %s %s %s %s)", cs, is, ls, vh.Bytes(exts[0]), ext2),
+					fmt.Sprintf("%s/%d", key, i), mode == 1 || len(t.suites) > 1, map[string]any{"client": name, "server": modeName, "ech_extension": vh.Hex(exts[0])})
+			}
+		}
+	}
+	c.Extra["distinct_id_enc_payload:"+name] = len(seenAll)
 }
